@@ -19,13 +19,15 @@ REPO = os.environ.get('VERIF_REPO', '/repo')
 
 
 def load_known():
-    p = os.path.join(VERIF, 'known_findings.jsonl')
+    """known_findings.txt:  `finding: property=<id> obligation=<prefix> :: <what>`  /  `fixed: ...` (ignored)"""
+    p = os.path.join(VERIF, 'known_findings.txt')
     out = []
     if os.path.exists(p):
         for l in open(p):
             l = l.strip()
-            if l and not l.startswith('#'):
-                out.append(json.loads(l))
+            mm = re.match(r'^finding:\s*property=(\S+)\s+obligation=(.+?)\s+::\s+(.*)$', l)
+            if mm:
+                out.append({'status': 'finding', 'property': mm.group(1), 'obligation': mm.group(2).strip(), 'what': mm.group(3)})
     return out
 
 
